@@ -152,6 +152,7 @@ class Ctx:
         self.int_memo = {}
         self.def_ids = set()
         self.def_vars = []
+        self.path_cache = {}
         self.path_notes = []
         self.writes = []
         self.nondet = []
@@ -389,7 +390,8 @@ class Ctx:
                 raise Inconclusive("non-deterministic re-execution (expected fork, got aux)")
             idx = ent[0]
             self.pos += 1
-            self.add(conds[idx])
+            if len(ent[1]) > 1:
+                self.add(conds[idx])
             return idx
         feas = [i for i, c in enumerate(conds) if self._feasible(c)]
         if not feas:
@@ -398,7 +400,8 @@ class Ctx:
         self.pos += 1
         if len(feas) > 1:
             self.stats.bump("forks", len(feas) - 1)
-        self.add(conds[feas[0]])
+            self.add(conds[feas[0]])
+        # a single feasible alternative is entailed by the path condition (the others were refuted): not re-asserted
         return feas[0]
 
     def _feasible(self, c):
